@@ -112,7 +112,10 @@ fn tape_json(t: &[(&'static str, u32, u32)]) -> Value {
 }
 
 fn forced_for(prop: &PropDef, run: u64) -> Vec<u32> {
-    if run < prop.directed as u64 {
+    if prop.directed == 0 {
+        // no scenario choice at the head of the tape: nothing to force
+        Vec::new()
+    } else if run < prop.directed as u64 {
         vec![run as u32 + 1]
     } else {
         vec![0]
